@@ -29,6 +29,9 @@ import (
 var c13Menu = []string{
 	"//b", "//*/ancestor::*", "$v | $w", "$v | //c", "$v[1]", "$v/..", "(//b)[last()]", "count($v)", "$w/preceding::*", "$v[last()] | $w[1]", "//c/ancestor-or-self::* | $v",
 	"$w | $v", "$v/following-sibling::*", "string($w)", "//*[. = $v]", "($v | $w)[2]", "$v//*", "sum($w)", "$w[position() > 1]", "$v | $v",
+	// every node test applied directly to the caller's variable (the self axis passes its input through)
+	"$v/self::b", "$v/self::*", "$v/self::node()", "$v/self::p:b", "$v/self::*:c", "$v/self::p:*", "$v/self::text()", "$w/self::c", "$v/.", "$v/self::c/..", "$v[self::b]", "$v/self::b[1]", "count($v/self::c)",
+	"$v/self::comment()", "$v/self::processing-instruction()", "$v/self::processing-instruction('t')", "$v/@*", "$v/namespace::*", "$v/self::r",
 }
 
 var c13Ctx = []string{"/", "/0/0", "/0/@0"}
@@ -92,10 +95,10 @@ func newC13World(doc int) *c13World {
 		g := xsel.MustBuildExpr(e)
 		w.exprs = append(w.exprs, &g)
 	}
-	// initial slots: all b elements in reverse order with spare capacity; all c elements
+	// initial slots: all elements (r, b, c mixed) in reverse order with spare capacity; all c elements
 	var bs, cs []store.Cursor
 	for _, n := range b.Doc.Nodes {
-		if n.Kind == adoc.Elem && n.Local == "b" {
+		if n.Kind == adoc.Elem {
 			bs = append(bs, b.ToCur[n])
 		}
 		if n.Kind == adoc.Elem && n.Local == "c" {
@@ -282,7 +285,12 @@ func c13Ops() []c13Op {
 		for ctx := range c13Ctx {
 			ops = append(ops, c13Op{Kind: "exec", Expr: e, Ctx: ctx, Store: -1})
 		}
-		// results that are node-sets may be kept by the caller
+		// results that are node-sets may be kept by the caller (first 12 menu
+		// entries: they already produce every slot shape - ascending, descending,
+		// single, empty, truncated with spare capacity)
+		if e >= 12 {
+			continue
+		}
 		ops = append(ops, c13Op{Kind: "exec", Expr: e, Ctx: 0, Store: 0}, c13Op{Kind: "exec", Expr: e, Ctx: 0, Store: 1}, c13Op{Kind: "exec", Expr: e, Ctx: 0, Store: 0, Trunc: true}, c13Op{Kind: "exec", Expr: e, Ctx: 1, Store: 1, Trunc: true})
 	}
 	ops = append(ops, c13Op{Kind: "unmarshal-slice"}, c13Op{Kind: "unmarshal-struct"}, c13Op{Kind: "rebuild", Expr: 2}, c13Op{Kind: "rebuild", Expr: 6})
